@@ -45,6 +45,7 @@ import (
 	"net/http"
 	"net/url"
 	"os"
+	"path/filepath"
 	"reflect"
 	"sort"
 	"strings"
@@ -1929,19 +1930,29 @@ func TestVerifC09(t *testing.T) {
 	defer w.Close()
 
 	// the applications log to os.Stdout (zerolog.New(os.Stdout) at start-up): give them a file the driver can read back
+	// The file lives next to the observation file (out/<property>/); without it the log sinks would go unobserved,
+	// so a failure to create it is fatal.
 	lg := &c09Log{}
+	logDir := ""
 
-	if f, err := os.CreateTemp("", "hv-c09-log-"); err == nil {
-		lg.f = f
-		saved := os.Stdout
-		os.Stdout = f
-
-		defer func() {
-			os.Stdout = saved
-			f.Close()
-			os.Remove(f.Name())
-		}()
+	if o := os.Getenv("VERIF_OUT"); o != "" {
+		logDir = filepath.Dir(o)
 	}
+
+	f, err := os.CreateTemp(logDir, "hv-c09-log-")
+	if err != nil {
+		t.Fatalf("cannot create the log capture file: %v", err)
+	}
+
+	lg.f = f
+	saved := os.Stdout
+	os.Stdout = f
+
+	defer func() {
+		os.Stdout = saved
+		f.Close()
+		os.Remove(f.Name())
+	}()
 
 	up := assembly.NewUpstream()
 	defer up.Close()
